@@ -8,6 +8,9 @@ import (
 
 func processResult(result *rego.ResultSet, eventChan *chan e.Event, validationConfig c.ValidationConfiguration, reportConfig c.ReportConfiguration) (string, error) {
 	dispatchEvent(e.NewEvent(e.BuildReportStart), eventChan)
+	if err := verifFault("build_report"); err != nil {
+		return "", err
+	}
 	report, err := BuildReport(result, validationConfig, reportConfig)
 	dispatchEvent(e.NewEvent(e.BuildReportDone), eventChan)
 	return report, err
